@@ -620,6 +620,12 @@ func (this *Writer) Close() error {
 }
 
 func (this *Writer) processBlock() error {
+	if atomic.LoadInt32(&this.blockID) == _CANCEL_TASKS_ID {
+		// A block task failed earlier: its block (and the blocks after it in the
+		// same batch) never reached the bitstream. The stream cannot be completed.
+		return &IOError{msg: "Stream in error state: a previous block could not be written", code: kanzi.ERR_WRITE_FILE}
+	}
+
 	if err := this.writeHeader(); err != nil {
 		return err
 	}
